@@ -29,10 +29,12 @@ Bad == IF l > Len(Tr) \/ Tr[l].ev = "Init" THEN {} ELSE
        \cup (IF e.ev = "LoadPath" /\ e.raised = "none" THEN
                 (IF e.sameobj THEN {} ELSE {"LoadedObjectSerialisesTheSame"})
                 \cup (IF e.sameverdicts THEN {} ELSE {"SameVerdicts"})
+                \cup (IF e.samemeta THEN {} ELSE {"MetadataPreserved"})
              ELSE {})
        \cup (IF e.ev = "LoadDict" /\ e.raised = "none" THEN
                 (IF e.dictintact THEN {} ELSE {"CallerDictionaryLeftAlone"})
                 \cup (IF e.reloadsame THEN {} ELSE {"SameDictionarySameResult"})
+                \cup (IF e.samemeta THEN {} ELSE {"MetadataPreserved"})
              ELSE {})
        \cup (IF e.ev = "Neutral" /\ e.raised = "none" THEN
                 (IF e.neutral THEN {} ELSE {"UnknownNeutral"})
